@@ -881,3 +881,122 @@ def kernels_fn(ctx, names=None):
             c = Candidate(fam.name, cd['role'], cd['text'], cd['model'], unmodelled=cd['unmodelled'])
             fam.candidates.append(c); allc.append((e, c))
     replay2(ctx, allc)
+
+
+# ---------------------------------------------------------------- regex functions: jawk's side, the regex crate as its documented contract
+def regex_kernels(ctx):
+    """extract_regex_group / match_regex with the regex engine replaced by its API contract: compile_regex gives Ok(regex) or
+    Err; a regex has L >= 1 groups (group 0 = the whole match); captures(text) is None or Some(caps); caps.get(i) is None
+    for i >= L, Some for i = 0, and Some or None (a group that did not take part) otherwise; caps[i] PANICS where get(i)
+    is None (documented); is_match is any boolean. Obligations: no panic for any group index (free u64) and any L; the
+    result is the matched text of the group when it took part and nothing otherwise; nothing for ill-typed arguments or
+    a pattern that does not compile."""
+    run = ctx.run
+    fam = run.family('fn.regex', 'extract_regex_group / match_regex never panic whatever group index, group count and participation the regex engine reports, and give the group text / the match verdict exactly when there is one (regex engine = its documented API contract)')
+    run.bounds['regex'] = 'group index any u64, group count any u64 >= 1, every outcome of compile / captures / get; argument shapes string / number / nothing'
+    run.assume('regex crate modelled by its API contract (captures_len >= 1, get(i) None beyond the last group, Index panics where get is None); Context::compile_regex answers Ok or Err (the cache is regex.cache_key)')
+    L = z3.BitVec('L', 64); IDX = z3.BitVec('idx', 64)
+    inl = conversions(ctx)
+    def s_compile(ex, st, func, a, ty):
+        out = []
+        for okk in (True, False):
+            s2 = st.clone(); rx = named(s2, 'REGEX', 'Regex')
+            res = ok(s2, rx) if okk else err(s2, named(s2, 'RXERR', 'regex::Error'))
+            s2.events.append(('compile', origin(s2, a[1]), okk)); out.append((s2, slot(s2, res) if False else res))
+        return out
+    def s_rc_deref(ex, st, func, a, ty): return [(st, slot(st, obj(st, a[0])))]
+    def s_caplen(ex, st, func, a, ty): return [(st, BV(L))]
+    def s_captures(ex, st, func, a, ty):
+        out = []
+        for m_ in (True, False):
+            s2 = st.clone(); s2.events.append(('captures', origin(s2, a[1]), m_))
+            out.append((s2, some(s2, named(s2, 'CAPS', 'Captures')) if m_ else none(s2)))
+        return out
+    def _get(ex, st, i, panicking, fname):
+        out = []
+        beyond = z3.UGE(i, L)
+        if ex.feasible(st, beyond):
+            s2 = st.clone(); s2.pc.append(beyond)
+            if panicking: s2.status = 'panic'; s2.notes.append('regex::Captures index: no group at that index @' + fname); PANICS.append(s2)
+            else: out.append((s2, none(s2)))
+        inside = z3.ULT(i, L)
+        if ex.feasible(st, inside):
+            for part in (True, False):
+                c = z3.And(inside, z3.BoolVal(True) if part else i != 0)
+                if not ex.feasible(st, c): continue
+                s2 = st.clone(); s2.pc.append(c); s2.events.append(('group', part))
+                if part:
+                    mt = named(s2, 'MATCH', 'Match'); out.append((s2, mt if panicking else some(s2, mt)))
+                elif panicking: s2.status = 'panic'; s2.notes.append('regex::Captures index: the group did not take part in the match @' + fname); PANICS.append(s2)
+                else: out.append((s2, none(s2)))
+        return out
+    def s_get(ex, st, func, a, ty): return _get(ex, st, a[1].t, False, st.frames[-1]['fn'].name)
+    def s_index(ex, st, func, a, ty):
+        outs = _get(ex, st, a[1].t, True, st.frames[-1]['fn'].name)
+        return [(s2, slot(s2, seqobj(s2, 'str', (), origin='GROUPTEXT'))) for s2, _ in outs]
+    def s_as_str(ex, st, func, a, ty): return [(st, slot(st, named(st, 'GROUPTEXT', 'str')))]
+    def s_is_match(ex, st, func, a, ty): return [(st, BoolV(z3.Bool('is_match(' + origin(st, a[1]) + ')')))]
+    def s_str_to_string(ex, st, func, a, ty):
+        o = obj(st, a[0]); return [(st, named(st, 'GROUPTEXT', 'String') if origin(st, o) == 'GROUPTEXT' else o)]
+    rsum = [(r'as RegexCompile>::compile_regex$', s_compile), (r'^<Rc<.*Result<regex::Regex, regex::Error>> as Deref>::deref$', s_rc_deref), (r'regex::Regex::captures_len$', s_caplen), (r'regex::Regex::captures$', s_captures),
+            (r'regex::Captures::<.*>::get$', s_get), (r'^<regex::Captures<.*> as Index<usize>>::index$', s_index), (r'regex::Match::<.*>::as_str$', s_as_str), (r'regex::Regex::is_match$', s_is_match),
+            (r'^<str as ToString>::to_string$|^<str as ToOwned>::to_owned$|^<&str as ToString>::to_string$', s_str_to_string)]
+    STR = lambda tag: (lambda st, ex: jv(st, ex, 'String', named(st, tag, 'String')))
+    NUM = lambda st, ex: jv(st, ex, 'Number', mk_enum(st, 'NumberValue', ex.enums['NumberValue'].index('Positive'), 'Positive', (BV(IDX),)))
+    NEG = lambda st, ex: jv(st, ex, 'Number', mk_enum(st, 'NumberValue', ex.enums['NumberValue'].index('Negative'), 'Negative', (BV(z3.BitVec('negidx', 64), True),)))
+    shapes = {'extract_regex_group': [(STR('TEXT'), STR('PATTERN'), NUM), (STR('TEXT'), STR('PATTERN'), NEG), (NUM, STR('PATTERN'), NUM), (STR('TEXT'), NUM, NUM), (STR('TEXT'), STR('PATTERN'), STR('X')), (STR('TEXT'), STR('PATTERN'), None), (None, STR('PATTERN'), NUM)],
+              'match_regex': [(STR('TEXT'), STR('PATTERN')), (NUM, STR('PATTERN')), (STR('TEXT'), NUM), (STR('TEXT'), None), (None, STR('PATTERN'))]}
+    allc = []
+    for fname, shs in shapes.items():
+        for sh in shs:
+            tab = {i: b for i, b in enumerate(sh) if b is not None}
+            base = make_summaries(tab)
+            drop = (r'as Iterator>::collect::<', r' as Into<JsonValue>>::into$|<JsonValue as From<.*>>::from$', 'ToString>::to_string')
+            ex = ctx.exec(summaries=rsum + extra_summaries() + [s for s in base if not any(d in s[0] for d in drop)], inline=inl + [(r'^<NumberValue as TryInto<usize>>::try_into$|^<usize as TryFrom<NumberValue>>::try_from$', '^' + re.escape(find_impl(Exec(ctx.fns), 'json_value', 'try_from', r'^NumberValue$', r'Result<usize,')) + '$')] if False else inl, max_visits=30)
+            F = ex.find(body_of('string/regex/' + fname))
+            st = State(); so = named(st, 'self', 'Impl'); selfref = slot(st, so, 'self*'); c = slot(st, named(st, 'ctx', 'Context'), 'ctx*')
+            st.heap[so.oid][('f', None, 0)] = seqobj(st, 'Vec', [named(st, f'G{i}', 'Rc<dyn Get>') for i in range(len(sh))], origin='self.0')
+            st.pc.append(z3.UGE(L, 1))
+            PANICS.clear(); ex.new_frame(st, F, [selfref, c]); done = ex.run(st) + list(PANICS); PANICS.clear()
+            well_typed = sh[0] is not None and sh[1] is not None and sh[0] is not NUM and sh[1] is not NUM and (fname == 'match_regex' or sh[2] is NUM)
+            for d in done:
+                run.paths += 1
+                if d.status == 'infeasible': continue
+                fam.obligations += 1; fam.paths += 1; fam.witnesses += 1
+                hav = (d.havoc or [None])[0]
+                def cand(role, text, within=None):
+                    ok_, m = ex.valid(d, z3.BoolVal(False) if within is None else z3.Not(within))
+                    mv = {'fn': fname, 'idx': m.eval(IDX, True).as_long() if m is not None else None, 'L': m.eval(L, True).as_long() if m is not None else None}
+                    cd = Candidate(fam.name, role, f'({fname} ...) {text}' + (f' with group index {mv["idx"]} on a pattern with {mv["L"]} groups' if m is not None else ''), mv, unmodelled=hav)
+                    if not any(x.role == role for x in fam.candidates): fam.candidates.append(cd); allc.append(cd)
+                if d.status != 'returned': cand(f'panic:{fname}' if d.status == 'panic' else f'path-{d.status}', f'{d.status}: {d.notes[-1] if d.notes else ""}'); continue
+                r = obj(d, d.ret); rd = cval(ex.discr(d, r).t)
+                if rd is None: cand('symbolic-result', 'returns an Option whose variant the path does not decide'); continue
+                got = deep(d, ex, d.heap[r.oid][('f', 'Some', 0)]) if rd == 1 else None
+                comp = [e for e in d.events if e[0] == 'compile']; caps = [e for e in d.events if e[0] == 'captures']; grp = [e for e in d.events if e[0] == 'group']
+                if not well_typed or (comp and not comp[-1][2]): exp = None
+                elif fname == 'match_regex': exp = ('bool', z3.Bool('is_match(TEXT)'))
+                else:
+                    matched = bool(caps and caps[-1][2]); part = bool(grp and grp[-1][1])
+                    exp = ('ostr', 'GROUPTEXT') if matched and part else None
+                    if comp and (comp[-1][1] != 'PATTERN' or (caps and caps[-1][1] != 'TEXT')): exp = ('wrong-operands',)
+                    # an answer given without asking the engine is only right where the engine could not have had a group
+                    if exp is None and comp and comp[-1][2] and ((not caps) or (matched and not grp)) and not ex.valid(d, z3.UGE(IDX, L))[0]: exp = ('engine-not-asked',)
+                ok_, m = ex.valid(d, match(got, exp)) if (exp is None or exp[0] not in ('wrong-operands', 'engine-not-asked')) else (False, None)
+                if ok_: fam.discharged += 1
+                else: cand(f'wrong-result:{fname}', within=z3.ULT(IDX, L) if exp is not None and exp[0] == 'engine-not-asked' else None, text=f'returns {pretty(got)}, documented: {pretty(exp) if exp is None or exp[0] not in ("wrong-operands", "engine-not-asked") else "the text of that group of the pattern (second argument) matched against the first argument, for every group index below the group count"}')
+            run.absorb(ex)
+    from .cli import run_jawk, show as shw
+    DEMOS = [('(extract_regex_group "10-20" "([0-9]+)-([0-9]+)" 1)', '10'), ('(extract_regex_group "10-20" "([0-9]+)-([0-9]+)" 2)', '20'), ('(extract_regex_group "10-20" "([0-9]+)-([0-9]+)" 0)', '10-20'),
+             ('(extract_regex_group "10-20" "([0-9]+)-([0-9]+)" 3)', 'nothing'), ('(extract_regex_group "10-20" "([0-9]+)-([0-9]+)" 20)', 'nothing'), ('(extract_regex_group "abc" "([0-9]+)|([a-z]+)" 1)', 'nothing'),
+             ('(extract_regex_group "abc" "([0-9]+)|([a-z]+)" 2)', 'abc'), ('(extract_regex_group "x=" "([a-z])=([0-9])?" 2)', 'nothing'), ('(extract_regex_group "zzz" "([0-9]+)" 1)', 'nothing'), ('(extract_regex_group "a" "(" 0)', 'nothing'),
+             ('(extract_regex_group "a" "a" -1)', 'nothing'), ('(extract_regex_group 1 "a" 0)', 'nothing'), ('(match_regex "abc" "b")', True), ('(match_regex "abc" "^b")', False), ('(match_regex "abc" "(")', 'nothing'), ('(match_regex 1 "1")', 'nothing')]
+    for c in allc:
+        c.status = 'unit'
+        for expr, exp in DEMOS:
+            r = run_jawk(ctx, ['--select', expr + '=r', '--style', 'consise'], b'{}')
+            out = shw(r['stdout']).strip()
+            try: got = json.loads(out).get('r', 'nothing')
+            except Exception: got = 'unparsable:' + out
+            if r['rc'] != 0 or b'panicked' in r['stderr'] or not jsame(got, exp):
+                c.replay = {'argv': ['--select', expr + '=r'], 'stdin': '{}', 'expected': exp, 'actual': got, 'rc': r['rc'], 'stderr': shw(r['stderr'])[-200:]}; c.status = 'reproduced'; break
